@@ -282,9 +282,9 @@ Qed.
 Lemma psnippet_GR : forall n st acc, L st < n -> GR st (psnippet fok n st acc).
 Proof.
   induction n as [|n IH]; intros st acc Hn; [lia|].
-  cbn [psnippet]. destruct (peek_is st T_EOF) eqn:Ee; [apply GR_ok; rch_go|].
+  cbn [psnippet]. destruct (cur_is st T_EOF) eqn:Ee; [apply GR_ok; rch_go|].
   assert (Hne : toks st <> []).
-  { intros E. unfold peek_is, peek in Ee. rewrite E in Ee. discriminate. }
+  { intros E. unfold cur_is, cur in Ee. rewrite E in Ee. discriminate. }
   apply GR_bind; [apply snippet_stmt_GR; exact Hne|]. intros s s1 E _.
   apply snippet_stmt_yield in E; [|apply toks_cur; exact Hne].
   pose proof (len_app_lt _ [] _ _ E (ystmt_nonempty s)) as Hl.
